@@ -562,7 +562,7 @@ class C10(core.Check):
                     return msgs
                 if handled:
                     rendered_w = set()
-                elif prefs is not None:
+                elif prefs is not None and prefs != "unknown":
                     prefs = dict(prefs, cur_ok=True)     # an unhandled key may or may not reset the preferred column
             prev_focus_render_w = w if (kind == "render" and st[1]) else None
             t = nt
@@ -643,6 +643,11 @@ class C10(core.Check):
             s = bytes(tb[q:]).decode(enc, "ignore")
             return q + len(s[:1].encode(enc)) if s else q + 1
 
+        if isb:
+            try:
+                bytes(t).decode(enc)
+            except UnicodeDecodeError:
+                return None, np_, nt, rt, None       # the text is not valid in this encoding: nothing to judge
         ins = None
         used = True
         if name not in NAMED:
@@ -726,12 +731,12 @@ class C10(core.Check):
         if nt != t:
             return f"{tag}: a cursor key changed the text", p, t, rt, prefs
         if rows is None:
-            return None, np_, nt, rt, None
+            return None, np_, nt, rt, "unknown"
         q = p + cap_len
         found = rows.find(q)
         top = rows.find(cap_len)
         if found is None or top is None:
-            return None, np_, nt, rt, None      # the offset is not displayed at this width: nothing to judge
+            return None, np_, nt, rt, "unknown"      # the offset is not displayed at this width: nothing to judge
         y, x, _kind = found
         curx = min(max(x, 0), w - 1)            # the view is shifted so that the cursor is visible
         nrows = len(rows.rows)
@@ -771,6 +776,8 @@ class C10(core.Check):
         if not handled:
             return f"{tag}: display row {ty} exists but the key was returned unhandled", p, t, rt, prefs
         # acceptable preferred columns
+        if prefs == "unknown":
+            return None, np_, nt, rt, "unknown"
         cands = []
         if prefs is not None:
             cands += list(prefs["cols"])
@@ -1015,7 +1022,8 @@ class C10(core.Check):
         return {"variant": ["edit"], "bytes": True, "enc": enc, "caption": rng.choice(["", "c:", WIDE if enc != "latin-1" else ACC]),
                 "text": text, "pos": pos, "multiline": rng.random() < 0.6, "allow_tab": rng.random() < 0.2, "mask": None,
                 "wrap": rng.choice(["space", "any", "clip"]), "align": rng.choice(["left", "center", "right"]),
-                "steps": [s for s in self._steps(rng, rng.choice([4, 8, 14]), w, keych, clicks=True) if s[0] != "setpos"]}
+                "steps": [s for s in self._steps(rng, rng.choice([4, 8, 14]), w, keych, clicks=True)
+                          if s[0] != "setpos" and (enc == "utf-8" or s[0] != "key" or s[1].isascii())]}
 
     def extra_checks(self, tier, rng, ev):
         out = []
